@@ -34,16 +34,26 @@ def models(state):
         return c07.fresh_result("send", ok=ms.Struct({}))
 
     def m_recv(ex, path, a):
-        c07.events(path).append(("recv",))
-        k = len([e for e in c07.events(path) if e[0] == "recv"])
+        k = len([e for e in c07.events(path) if e[0] == "recv"]) + 1
         ex.write(path, "__call", (5,), z3.Bool("continues_after_recv_%d" % k))
-        r = ms.Opaque("recv result %d" % k)
-        state.setdefault("recv_results", []).append(r)
+        d = z3.Int("recv_outcome_%d" % k)
+        state.setdefault("range", []).append(z3.And(d >= 0, d <= 1))
+        r = ms.Enum(d, {"Ok": ms.Struct({0: ms.Opaque("reply %d" % k)}), "Err": ms.Struct({0: ms.Opaque("error %d" % k)})})
+        c07.events(path).append(("recv", r))
         return r
 
+    def m_is_ok(ex, path, a):
+        v = a[0] if isinstance(a[0], ms.Enum) else ex.load(path, a[0])
+        return v.discr == 0
+
+    def m_is_err(ex, path, a):
+        v = a[0] if isinstance(a[0], ms.Enum) else ex.load(path, a[0])
+        return v.discr == 1
+
     base = [m for m in c07.models() if "branch" in m[0] or "from_residual" in m[0] or "map_err" in m[0]
-            or "Into<MError>" in m[0] or "From<error::Error>" in m[0]]
-    return [(r"^MethodCall::<.*>::send$", m_send), (r"^MethodCall::<.*>::recv$", m_recv)] + base
+            or "Into<MError>" in m[0] or "From<error::Error>" in m[0] or "Option::<" in m[0]]
+    return [(r"^MethodCall::<.*>::send$", m_send), (r"^MethodCall::<.*>::recv$", m_recv),
+            (r"Result::<MReply, MError>::is_ok$", m_is_ok), (r"Result::<MReply, MError>::is_err$", m_is_err)] + base
 
 
 def run(name, repo, timeout_s):
@@ -53,11 +63,13 @@ def run(name, repo, timeout_s):
     solver = z3.Solver()
     solver.set("timeout", max(1000, int(timeout_s * 1000 / 4)))
     cont0 = z3.Bool("call_continues")
-    call = ms.Struct({0: ms.Ref("__arc", ()), 1: ms.Opaque("request"), 2: ms.Opaque("method"), 3: ms.Opaque("reader"),
-                      4: ms.Opaque("writer"), 5: cont0}, "MethodCall")
+    # the remaining slots of the call: presence free (only code that is not there today looks at them)
+    slots = [c07.opt("call_" + n, ms.Opaque(n)) for n in ("request", "method", "reader", "writer")]
+    base = [z3.And(d >= 0, d <= 1) for _, d in slots]
+    call = ms.Struct({0: ms.Ref("__arc", ()), 1: slots[0][0], 2: slots[1][0], 3: slots[2][0], 4: slots[3][0], 5: cont0}, "MethodCall")
     init = {params[0]: ms.Ref("__call", ()), "__call": call}
     state = {}
-    ex = ms.Exec(blocks, models(state), solver, [])
+    ex = ms.Exec(blocks, models(state), solver, base)
     finished = ex.run(init)
     if not finished:
         raise Unsupported("no returning path")
@@ -67,7 +79,7 @@ def run(name, repo, timeout_s):
 
     def ask(pc, neg, label):
         nonlocal queries, failed
-        solver.push(); solver.add(*pc); solver.add(neg)
+        solver.push(); solver.add(*base); solver.add(*pc); solver.add(neg)
         queries += 1
         r = solver.check()
         if r == z3.sat and failed is None:
@@ -102,7 +114,7 @@ def run(name, repo, timeout_s):
                 seen["item"] = True
                 ask(pc, z3.Not(cont0), "P:c05.nothing_is_yielded_after_the_final_reply")
                 item = ret.payloads["Some"].f.get(0)
-                if len(recvs) != 1 or not (isinstance(item, ms.Opaque) and item.what == "recv result 1"):
+                if len(recvs) != 1 or item is not recvs[0][1]:
                     ask(pc, T, "P:c05.each_item_is_exactly_one_reply_read")
                 # whether another item follows is what recv left in the flag (c07_recv: it follows the reply)
                 if not (z3.is_expr(after) and z3.eq(after, z3.Bool("continues_after_recv_1"))):
@@ -143,7 +155,7 @@ def run(name, repo, timeout_s):
             if recvs:
                 seen["ok"] = True
                 ask(pc, z3.Not(send_ok), "P:c05.call_reads_only_after_a_successful_send")
-                if len(recvs) != 1 or not (isinstance(ret, ms.Opaque) and ret.what == "recv result 1"):
+                if len(recvs) != 1 or ret is not recvs[0][1]:
                     ask(pc, T, "P:c05.call_returns_the_one_reply_it_read")
             else:
                 seen["err"] = True
